@@ -12,7 +12,7 @@ REL_NOTE = ("Trusted: harness/oracle objective; for C02 the reference implementa
             "Pairs are compared when both runs report convergence; problems are tall and well conditioned so that minimisers are "
             "unique where coefficients are compared.")
 CHECKS = {
- "C01": dict(tech="TLA+ design model CDCore (TLC exhaustive) + TLC-generated scenarios replayed on the real solvers + trace validation by the SolverTrace monitor spec (clauses cert, cert_outer against an independent oracle)",
+ "C01": dict(tech="TLA+ design model CDCore (TLC exhaustive) + TLC-generated scenarios replayed on the real solvers + trace validation by the SolverTrace monitor spec (clauses cert, cert_outer against an independent oracle) + the stopping values reported by path() judged against the returned columns (path_cert, path_coefs_are_the_step_solutions)",
              text="Model checking of the working-set CD design (CertSound, Consistent over every budget, working-set tie-break, warm support, unpenalised set) and trace validation: every real run's events are judged by TLC; a stopping value <= tol must be matched by the first-order violation recomputed from X, y, w alone.", ref="6 C01"),
  "C03": dict(tech="CDCore action property Descent (TLC) + trace validation of every intermediate state of instrumented runs (clauses descent, accept_safe, accept_guard, start) + MicroCD exact replay (spec -> code) + Reweight.tla majorise-minimise model and observed reweighting runs (rw_descent, rw_weights_valid, rw_hist_true)",
              text="Every event of a run (each epoch, each Anderson step, each record) carries the oracle objective; TLC checks monotonicity at every prefix = every budget, and that accepted extrapolations never increase the true objective nor the objective of the buffers the guard sees. The exact dyadic model MicroCD.tla is replayed into AndersonCD and cyclic GramCD (iterates must be equal float for float). Iterative reweighting: Reweight.tla proves Descent / Majorises for weights = d pen / d|w| and refutes them for signed derivatives; every surrogate solve of real IterativeReweightedL1 runs is observed and the true objective of successive iterates judged.", ref="6 C03"),
